@@ -980,7 +980,10 @@ func (e *endpoint) HandlePacket(r *stack.Route, id stack.TransportEndpointID, vv
 
 	// RFC 768 / RFC 1122 4.1.3.4: 校验和不为0而又不正确的数据报必须丢弃
 	// (IPv6下没有"不带校验和"的数据报)
-	if hdr.Checksum() != 0 || r.NetProto == header.IPv6ProtocolNumber {
+	// On a link that offloads checksums (loopback) the sender leaves the field
+	// empty and the link vouches for the data: nothing to verify there.
+	// 校验和由链路层负责(如loopback)时发送方不填校验和，此时不做校验
+	if r.Capabilities()&stack.CapabilityChecksumOffload == 0 && (hdr.Checksum() != 0 || r.NetProto == header.IPv6ProtocolNumber) {
 		xsum := r.PseudoHeaderChecksum(ProtocolNumber)
 		xsum = header.Checksum(vv.ToView()[header.UDPMinimumSize:], xsum)
 		if hdr.CalculateChecksum(xsum, hdr.Length()) != 0xffff {
